@@ -313,6 +313,10 @@ func lowestSentinel(f *ssa.Function) string {
 func ruleOffsetUnion(rule string) func(*Ctx) {
 	return func(c *Ctx) {
 		f := c.fn("(ClipperOffset).executeInternal")
+		fEntry := f
+		if h := fnWithCallsTo(c, f, "(ClipperOffset).checkPathsReversed", 0); h != nil {
+			f = h // the union step may have been moved into a helper of executeInternal
+		}
 		co := f.Params[0].Name()
 		var from *ssa.BasicBlock
 		for _, ci := range callsTo(c, f, "(ClipperOffset).checkPathsReversed") {
@@ -365,7 +369,7 @@ func ruleOffsetUnion(rule string) func(*Ctx) {
 		}
 		// |delta| < 0.5: the stripped input paths are returned and nothing is constructed
 		bad := "no `math.Abs(delta) < 0.5` fast path found"
-		for _, b := range f.Blocks {
+		for _, b := range fEntry.Blocks {
 			ifi, ok := b.Instrs[len(b.Instrs)-1].(*ssa.If)
 			if !ok {
 				continue
@@ -381,7 +385,7 @@ func ruleOffsetUnion(rule string) func(*Ctx) {
 			bad = ""
 			t := b.Succs[0]
 			appends, rets := 0, 0
-			for _, bb := range f.Blocks {
+			for _, bb := range fEntry.Blocks {
 				if !t.Dominates(bb) {
 					continue
 				}
